@@ -159,6 +159,13 @@ theorem Att_congr {w w' : World} (h1 : w'.nIters = w.nIters) (h2 : w'.iters = w.
     Att w' d ↔ Att w d := by
   unfold Att; rw [h1, h2]
 
+theorem G_renderEnd {s X w} (d : Nat) (h : G s X w) (hd : (w.objs d).finalized = false) :
+    G s X (apply (.renderEnd d) w) := by
+  have hatt : ∀ j, Att (apply (.renderEnd d) w) j ↔ Att w j := Att_congr rfl rfl
+  obtain ⟨a, b, c, dd, v, e, x, wf, lt, ff, hh, ii, jj⟩ := h
+  constructor <;> simp only [apply, setObj_objs, setObj_iters, setObj_nObjs, setObj_nIters, log_objs,
+    log_iters, log_nObjs, log_nIters] at hatt ⊢ <;> grind
+
 theorem G_render {s X w} (d : Nat) (h : G s X w) (hd : (w.objs d).finalized = false) :
     G s X (apply (.render d) w) := by
   have hatt : ∀ j, Att (apply (.render d) w) j ↔ Att w j := Att_congr rfl rfl
